@@ -10,7 +10,7 @@ import re
 from typing import Any, Dict, List, Optional, Tuple
 
 from .. import materialize, rx
-from ..core import AnalysisError, Ctx, assigned_names, dotted, names_in, norm, stmts_local, walk_local
+from ..core import Locals, AnalysisError, Ctx, assigned_names, dotted, names_in, norm, stmts_local, walk_local
 from ..paths import enumerate_paths
 
 
@@ -163,8 +163,8 @@ def structural_rules(ctx: Ctx):
         ifs = list(comp0.ifs)
         src = comp0.iter
         # a selection that ranges over a local sub-list `[x for x in self.extractors if c]` is a selection over self.extractors under c
-        if isinstance(src, ast.Name):
-            ds = [x for x in stmts_local(pi.body) if isinstance(x, ast.Assign) and any(norm(t) == src.id for t in x.targets)]
+        if isinstance(src, ast.Name) or (isinstance(src, ast.Attribute) and norm(src.value) == "self" and norm(src) != "self.extractors"):
+            ds = [x for x in stmts_local(pi.body) if isinstance(x, ast.Assign) and any(norm(t) == norm(src) for t in x.targets)]
             if len(ds) == 1 and isinstance(ds[0].value, ast.ListComp) and len(ds[0].value.generators) == 1 and isinstance(ds[0].value.generators[0].target, ast.Name) \
                     and norm(ds[0].value.elt) == ds[0].value.generators[0].target.id and ds[0].lineno < s.lineno:
                 g2 = ds[0].value.generators[0]
@@ -243,7 +243,7 @@ def structural_rules(ctx: Ctx):
                f"each filter must be scanned with Automaton.iter (reports every occurrence of every string, overlapping ones included); "
                f"found {[norm(s_.func)[:60] for s_ in scans]}", node=scans[0] if scans else ge, mod=m)
         for sc in scans:
-            argf = norm(sc.args[0]).replace(textp or "\0", "@") if sc.args else "?"
+            argf = Locals(ge).text(sc.args[0], sc).replace(textp or "\0", "@") if sc.args else "?"
             ctx.ob("R-C13-4", f"{q}.get_extractors/{x['attr']}:normalisation", argf == keyf,
                    f"strings are inserted as `{norm(x['key'])}` and the text is scanned as `{norm(sc.args[0]) if sc.args else '?'}`: both sides must be normalised by the same function",
                    node=sc, mod=m)
